@@ -1027,6 +1027,14 @@ class Pass3(CompilePass):
 
     process_read_pre = process_input_pre
 
+    def process_for_block_pre(self, node):
+        # ... and for the loop variable of FOR
+        if not isinstance(node.var, Lvalue):
+            raise CompileError(
+                EC.DUPLICATE_DEFINITION,
+                'A function with the same name exists',
+                node=node.var)
+
     def process_select_block_pre(self, node):
         vtype = node.value.type
         for case, body in node.case_blocks:
